@@ -99,6 +99,16 @@ struct ImageDamage : Family {
 					Line l = multi(); l.set("f1", "pixelHeight").set("v1", hex64(hv)).set("f2", "pix.len").set("v2", hex64((32 * hv) & 0xffffffffull)); templates.push_back(l);
 				}
 				for (uint64_t bd : {1ull, 4ull, 0x10008ull, 0x100008ull}) { Line l = multi(); l.set("f1", "bitDepth").set("v1", hex64(bd)); templates.push_back(l); }
+				// section lengths moved together so that sums a reader may cross-check still agree
+				for (const char* d : {"4", "8", "12", "64", "1024", "0x100000"}) {
+					std::string up = std::string("+") + d, down = std::string("-") + d;
+					auto pair = [&](const char* a, const std::string& va, const char* b, const std::string& vb) { Line l = multi(); l.set("f1", a).set("v1", va).set("f2", b).set("v2", vb); templates.push_back(l); };
+					pair("PPAL.len", up, "pdata.len", up); pair("PPAL.len", down, "pdata.len", down);
+					pair("phead.len", down, "pdata.len", up); pair("phead.len", up, "pdata.len", down);
+					pair("PBMP.len", up, "pix.len", up); pair("PBMP.len", down, "pix.len", down);
+					pair("head.len", up, "PBMP.len", up);
+					Line t3 = multi(); t3.set("f1", "PBMP.len").set("v1", up).set("f2", "PPAL.len").set("v2", up).set("f3", "pdata.len").set("v3", up); templates.push_back(t3);
+				}
 			} else {
 				ref::RBmp b;
 				b.bits = 8; b.w = 32; b.h = bu ? static_cast<int32_t>(t.h) : -static_cast<int32_t>(t.h);
@@ -118,6 +128,17 @@ struct ImageDamage : Family {
 			valid = ref::encodePrt(m, &fields);
 			headerLen = valid.size();
 			prtImages = m.images.size();
+			// palette section lengths moved together so that the header's own sum check still agrees
+			for (size_t i = 0; i < m.palettes.size(); ++i) {
+				std::string q = "pal" + std::to_string(i) + ".";
+				for (const char* d : {"4", "8", "12", "64", "1024", "0x100000"}) {
+					std::string up = std::string("+") + d, down = std::string("-") + d;
+					auto pair = [&](const char* a, const std::string& va, const char* b, const std::string& vb) { Line l = multi(); l.set("f1", q + a).set("v1", va).set("f2", q + b).set("v2", vb); templates.push_back(l); };
+					pair("PPAL.len", up, "data.len", up); pair("PPAL.len", down, "data.len", down);
+					pair("head.len", down, "data.len", up); pair("head.len", up, "data.len", down);
+					pair("PPAL.len", up, "head.len", up);
+				}
+			}
 			for (size_t i = 0; i < m.images.size(); ++i) {
 				std::string q = "img" + std::to_string(i) + ".";
 				for (const char* v : {"0xffffffff", "0x80000000", "0x10000", "0xfffffffc"}) {
@@ -142,13 +163,15 @@ struct ImageDamage : Family {
 		size_t calls = 0;
 		for (size_t vi = 0; vi < variants.size(); ++vi) {
 			const Line& dmg = variants[vi];
-			ctx.setVariant(dmg.str());
+			// backend rotates so that every backend meets every damage class over the sweep; a pinned variant carries its backend
+			const std::string backendName = dmg.has("backend") ? dmg.get("backend") : (vi % 7 == 3) ? "file" : (vi % 7 == 5) ? "sim" : "mem";
+			{ Line pinned = dmg; pinned.set("backend", backendName); ctx.setVariant(pinned.str()); }
 			ctx.setOp(0);
 			std::vector<uint8_t> bytes = applyDamage(valid, fields, dmg);
 			bool changed = bytes != valid;
 			++ctx.evaluations;
 			ctx.count("fault.damage_" + dmg.verb);
-			const char* backend = (vi % 7 == 3) ? "file" : (vi % 7 == 5) ? "sim" : "mem";
+			const char* backend = backendName.c_str();
 			BitmapFile bf;
 			std::shared_ptr<ArtFile> art;
 			std::string what;
